@@ -41,7 +41,8 @@ type Net struct {
 	nextPort  int
 
 	// configuration (set by the harness before traffic starts)
-	LatencyMax time.Duration // per-chunk latency is drawn in [0, LatencyMax]
+	LatencyMin time.Duration // base one-way latency of every chunk (default 50µs)
+	LatencyMax time.Duration // extra per-chunk latency is drawn in [0, LatencyMax]
 	LatencyP0  float64       // probability of the minimal latency
 	nodePrefix map[string]string // task-id prefix -> node name
 	addrNode   map[string]string // listen address key -> node name
@@ -69,6 +70,7 @@ func Of(w *sim.World) *Net {
 		refuse:     map[string]bool{},
 		Stats:      map[string]int{},
 		LatencyP0:  0.5,
+		LatencyMin: 50 * time.Microsecond,
 	}
 	w.Values["snet"] = n
 	return n
@@ -185,6 +187,19 @@ func (n *Net) ResetConn(id int) bool {
 	c := n.conns[id]
 	n.mu.Unlock()
 	return c.reset()
+}
+
+// DialsTo counts the connections ever opened to a listen address.
+func (n *Net) DialsTo(address string) int {
+	n.mu.Lock()
+	defer n.mu.Unlock()
+	k := 0
+	for _, c := range n.conns {
+		if key(c.remote.s) == key(address) {
+			k++
+		}
+	}
+	return k
 }
 
 func (n *Net) NumConns() int {
@@ -376,6 +391,8 @@ func dial(network, address string, timeout time.Duration) (Conn, error) {
 	}
 	if refused {
 		n.stat("dial_refused")
+		w.Event("net dial refused %s", k)
+		w.Sleep(2*n.LatencyMin + time.Microsecond) // the RST takes a round trip
 		return nil, &net.OpError{Op: "dial", Net: network, Addr: addr{address}, Err: os.NewSyscallError("connect", syscall.ECONNREFUSED)}
 	}
 	n.mu.Lock()
@@ -475,9 +492,11 @@ func (c *conn) Read(p []byte) (int, error) {
 			if !ck.at.After(now) {
 				if ck.eof {
 					h.mu.Unlock()
+					w.Event("net c%d read EOF (%s)", c.id, h.key)
 					return 0, io.EOF
 				}
 				k := copy(p, ck.data)
+				w.Note("net c%d %s read %d bytes", c.id, h.key, k)
 				if k < len(ck.data) {
 					ck.data = ck.data[k:]
 				} else {
@@ -492,6 +511,7 @@ func (c *conn) Read(p []byte) (int, error) {
 			if !h.rdl.After(now) {
 				h.mu.Unlock()
 				c.n.stat("read_deadline")
+				w.Event("net c%d read deadline (%s)", c.id, h.key)
 				return 0, &net.OpError{Op: "read", Net: "tcp", Source: c.local, Addr: c.remote, Err: os.ErrDeadlineExceeded}
 			}
 			if wakeAt.IsZero() || h.rdl.Before(wakeAt) {
@@ -540,6 +560,7 @@ func (c *conn) Write(p []byte) (int, error) {
 	peerClosed := dst.closed
 	dst.mu.Unlock()
 	if peerClosed {
+		w.Event("net c%d write to closed peer", c.id)
 		return 0, &net.OpError{Op: "write", Net: "tcp", Source: c.local, Addr: c.remote, Err: os.NewSyscallError("write", syscall.EPIPE)}
 	}
 	// latency decision
@@ -563,11 +584,12 @@ func (c *conn) Write(p []byte) (int, error) {
 	}
 	n.mu.Unlock()
 	data := append([]byte(nil), p...)
+	w.Note("net c%d write %d bytes dialer=%v lat=%v held=%v", c.id, len(p), c.dialer, lat, held)
 	if on != nil {
 		on(c.id, c.dialer, data)
 	}
 	now := time.Now()
-	at := now.Add(lat + time.Microsecond)
+	at := now.Add(lat + n.LatencyMin + time.Microsecond)
 	dst.mu.Lock()
 	if !at.After(dst.lastAt) {
 		at = dst.lastAt.Add(time.Nanosecond)
@@ -589,6 +611,7 @@ func (c *conn) Close() error {
 	h.closed = true
 	h.q = nil
 	h.mu.Unlock()
+	c.n.w.Note("net c%d close by dialer=%v", c.id, c.dialer)
 	h.kick()
 	// FIN travels behind the data already written
 	dst := c.peer.in
@@ -599,7 +622,7 @@ func (c *conn) Close() error {
 		held = false
 	}
 	n.mu.Unlock()
-	at := time.Now().Add(time.Microsecond)
+	at := time.Now().Add(n.LatencyMin + time.Microsecond)
 	dst.mu.Lock()
 	if !at.After(dst.lastAt) {
 		at = dst.lastAt.Add(time.Nanosecond)
